@@ -6,10 +6,13 @@ import json, os
 ENV = "GOFLAGS=-mod=mod GOPROXY=off GOSUMDB=off GOTOOLCHAIN=local"
 TECH = "bounded symbolic execution of the real go/ssa code (own executor gosym) + SMT (z3 5.1.0, unsat obligations cross-checked with z3 4.8.12; cvc5 bv-as-int for decimal kernels); counterexamples replayed natively"
 
-claimed = {
- "C20": dict(ref="2/C20", text="For every name/pattern/reference byte string within the length bound (all 256 byte values per position) and delimiter in {'/','.',none}, the solver shows on every execution path of the real MatchList/matchList that the result equals an independent dynamic-programming matcher; the oracle and the engine are pinned to the repository's 28-row test table on every run.",
-             note="Bounded: lengths as configured in checks/C20.json (quick 3/3/1, thorough 4/4/2). Trusted: gosym interpreter and its intercepts (bytealg.IndexByteString), the 30-line reference matcher, z3. Non-ASCII delimiters outside the claim."),
-}
+import glob
+claimed = {}
+for f in sorted(glob.glob("/verif/checks/C*.json")):
+    s = json.load(open(f))
+    if "manifest" in s:
+        mf = s["manifest"]
+        claimed[s["property"]] = dict(ref=mf["design_ref"], text=mf["level_text"], note=mf["level_note"])
 
 not_applicable = {
  "C13": "quantifies over goroutine schedules (data races, exactly-once completion under all interleavings); the executor runs one deterministic cooperative schedule and no sound all-interleavings SMT encoding of the real client is within reach with the installed tools",
